@@ -5,7 +5,7 @@
    Models /repo/src/htlc_manager.rs (handle_htlc after classification, PaymentState,
    payment_lifecycle, resolve), store.rs (ClnDatastore as RPC scripts), payment_provider.rs
    (pay / wait_payment as RPC scripts) and the CLN side as the contract N1-N6 (DESIGN 3.3). *)
-From Tramp Require Import Model.Base Model.Fee Model.Classify.
+From Tramp Require Export Model.Base Model.Fee Model.Classify Model.Node Model.Provider.
 
 (* ---------- configuration ---------- *)
 Record cfg := {
@@ -18,93 +18,6 @@ Record cfg := {
 Definition r_node_fail : response := Fail (encode_failure TemporaryNodeFailure).
 Definition r_tramp_fail : response := Fail (encode_failure TemporaryTrampolineFailure).
 Definition r_fee_fail (c : cfg) : response := Fail (encode_failure (TrampolineFeeOrExpiryInsufficient (pol c))).
-
-(* ---------- node (environment), one payment hash ---------- *)
-Inductive dsval := DFree | DPending (a t : N) | DSucc (p : list N) | DGarbage.
-Inductive pstat := PPend | PDone (p : list N) | PFailed.
-Record node := {
-  ds : option (dsval * N);           (* state record and its generation *)
-  atts : list (N * (bool * bool));   (* attempt records: id -> (completed, success) *)
-  parts : list pstat;                (* sendpay parts, index = pid *)
-  payrun : N                         (* pay commands currently running *)
-}.
-Definition node0 := {| ds := None; atts := []; parts := []; payrun := 0 |}.
-
-Inductive wmode := MustCreate | MustReplace | CreateOrReplace.
-Inductive payout := PayComplete (p : list N) | PayPending | PayFailedWarn | PayFailed | PayError.
-Inductive rpc :=
-| QListState
-| QWriteState (m : wmode) (gen : option N) (v : dsval)
-| QWriteAtt (m : wmode) (a : N) (completed success : bool) (amount : N) (bolt11 : list N)
-| QListPend
-| QListDone
-| QWaitPart (pid : nat)
-| QPay (bolt11 : list N) (amount : option N) (maxfee maxdelay retry : N).
-Inductive reply :=
-| YState (v : option (dsval * N))
-| YGen (g : N)
-| YUnit
-| YPids (l : list nat)
-| YPres (l : list (list N))
-| YPre (p : list N)
-| YPartFailed
-| YPay (o : payout)
-| YErr.
-Inductive fault := NoFault | Rejected | AppliedButError.
-
-Definition mem_att (a : N) (l : list (N * (bool * bool))) : bool := existsb (fun x => fst x =? a) l.
-Fixpoint set_att (a : N) (v : bool * bool) (l : list (N * (bool * bool))) : list (N * (bool * bool)) :=
-  match l with
-  | [] => [(a, v)]
-  | x :: r => if fst x =? a then (a, v) :: r else x :: set_att a v r
-  end.
-Fixpoint pend_ids (i : nat) (l : list pstat) : list nat :=
-  match l with [] => [] | PPend :: r => i :: pend_ids (S i) r | _ :: r => pend_ids (S i) r end.
-Fixpoint done_pres (l : list pstat) : list (list N) :=
-  match l with [] => [] | PDone p :: r => p :: done_pres r | _ :: r => done_pres r end.
-
-Definition set_ds (n : node) (d : option (dsval * N)) : node :=
-  {| ds := d; atts := atts n; parts := parts n; payrun := payrun n |}.
-Definition set_atts (n : node) (l : list (N * (bool * bool))) : node :=
-  {| ds := ds n; atts := l; parts := parts n; payrun := payrun n |}.
-Definition set_parts (n : node) (l : list pstat) : node :=
-  {| ds := ds n; atts := atts n; parts := l; payrun := payrun n |}.
-Definition set_payrun (n : node) (k : N) : node :=
-  {| ds := ds n; atts := atts n; parts := parts n; payrun := k |}.
-
-(* what the node does when it executes an RPC (N5, N6); None = no answer yet *)
-Definition node_exec (n : node) (q : rpc) (f : fault) : node * option reply :=
-  match f with Rejected => (n, Some YErr) | _ =>
-  let wrap (r : reply) := match f with AppliedButError => Some YErr | _ => Some r end in
-  match q with
-  | QListState => (n, wrap (YState (ds n)))
-  | QWriteState m g v =>
-      match ds n, m with
-      | None, MustReplace => (n, Some YErr)
-      | Some _, MustCreate => (n, Some YErr)
-      | None, _ => (set_ds n (Some (v, 0)), wrap (YGen 0))
-      | Some (_, cur), _ =>
-          match g with
-          | Some g' => if g' =? cur then (set_ds n (Some (v, cur + 1)), wrap (YGen (cur + 1))) else (n, Some YErr)
-          | None => (set_ds n (Some (v, cur + 1)), wrap (YGen (cur + 1)))
-          end
-      end
-  | QWriteAtt m a cm su _ _ =>
-      match mem_att a (atts n), m with
-      | false, MustReplace => (n, Some YErr)
-      | true, MustCreate => (n, Some YErr)
-      | _, _ => (set_atts n (set_att a (cm, su) (atts n)), wrap YUnit)
-      end
-  | QListPend => (n, wrap (YPids (pend_ids 0 (parts n))))
-  | QListDone => (n, wrap (YPres (done_pres (parts n))))
-  | QWaitPart pid =>
-      match nth_error (parts n) pid with
-      | Some (PDone p) => (n, wrap (YPre p))
-      | Some PFailed | None => (n, wrap YPartFailed)
-      | Some PPend => (n, match f with AppliedButError => Some YErr | _ => None end)
-      end
-  | QPay _ _ _ _ _ => (set_payrun n (payrun n + 1), None)
-  end end.
 
 (* ---------- plugin, one payment hash ---------- *)
 Record htlc := {
@@ -127,10 +40,6 @@ Record entry := {
   fail_q : option response  (* fail_requested channel (capacity 1) holds this message *)
 }.
 
-Inductive waitst :=
-| WListP (cid : nat)
-| WListD (cid : nat) (pend : list nat)
-| WParts (awaiting : list (nat * nat)).     (* (pid, call id) still awaited *)
 Inductive after_wait := AfterRestart (a g t : N) | AfterPay (a g : N).
 Inductive pc :=
 | PFetch (cid : nat)
@@ -144,8 +53,6 @@ Inductive pc :=
 | PMFp1 (cid : nat) (a g : N) | PMFp2 (cid : nat) (a g : N)                    (* mark_failed after a failed pay *)
 | PEnd | PPanicked.
 
-Inductive cstatus := Unprocessed | Running | Replied (y : reply) | Delivered | Cancelled | Dead.
-Record call := { c_rpc : rpc; c_st : cstatus }.
 
 (* the lifecycle's own copy of the TrampolineInfo it was spawned with *)
 Record linfo := { li_blob : list N; li_deliver : N; li_inv_amount : option N }.
@@ -270,10 +177,7 @@ Section Lifecycle.
     end.
 
   Definition start_wait (k : after_wait) (e : option entry) (na : N) : adv :=
-    {| a_pc := PWait k (WListP base); a_entry := e; a_new := [QListPend]; a_out := []; a_cancel := []; a_att := na |}.
-
-  Fixpoint number_from (b : nat) (l : list nat) : list (nat * nat) :=
-    match l with [] => [] | x :: r => (x, b) :: number_from (S b) r end.
+    {| a_pc := PWait k (fst (wait_start base)); a_entry := e; a_new := snd (wait_start base); a_out := []; a_cancel := []; a_att := na |}.
 
   (* deliver reply [y] of call [cid] to the lifecycle at [p]; None = that call is not awaited by [p] *)
   Definition lc_deliver (p : pc) (cid : nat) (y : reply) (sel : bool) (e : option entry) (na : N) : option adv :=
@@ -285,32 +189,14 @@ Section Lifecycle.
         | YState (Some (DPending a t, g)) => start_wait (AfterRestart a g t) e na
         | _ => do_resolve e r_node_fail PEnd [] [] [] na
         end
-    | PWait kk (WListP k) => if negb (Nat.eqb k cid) then None else Some
-        match y with
-        | YPids ps => {| a_pc := PWait kk (WListD base ps); a_entry := e; a_new := [QListDone]; a_out := []; a_cancel := []; a_att := na |}
-        | _ => wait_err kk e [] na
+    | PWait kk ws =>
+        match wait_deliver base ws cid y with
+        | None => None
+        | Some (WGo ws' new) => Some {| a_pc := PWait kk ws'; a_entry := e; a_new := new; a_out := []; a_cancel := []; a_att := na |}
+        | Some (WFin (WSome pr) cancel) => Some (wait_some kk e pr cancel na)
+        | Some (WFin WNone _) => Some (wait_none kk e na)
+        | Some (WFin WErr cancel) => Some (wait_err kk e cancel na)
         end
-    | PWait kk (WListD k ps) => if negb (Nat.eqb k cid) then None else Some
-        match y with
-        | YPres (pr :: _) => wait_some kk e pr [] na
-        | YPres [] => match ps with
-                      | [] => wait_none kk e na
-                      | _ => {| a_pc := PWait kk (WParts (number_from base ps)); a_entry := e; a_new := map QWaitPart ps;
-                                a_out := []; a_cancel := []; a_att := na |}
-                      end
-        | _ => wait_err kk e [] na
-        end
-    | PWait kk (WParts aw) =>
-        if negb (existsb (fun x => Nat.eqb (snd x) cid) aw) then None else Some
-        (let rest := filter (fun x => negb (Nat.eqb (snd x) cid)) aw in
-         match y with
-         | YPre pr => wait_some kk e pr (map snd rest) na
-         | YPartFailed => match rest with
-                          | [] => wait_none kk e na
-                          | _ => stay (PWait kk (WParts rest)) e na
-                          end
-         | _ => wait_err kk e (map snd rest) na
-         end)
     | PMarkF1 k a g t => if negb (Nat.eqb k cid) then None else Some
         match y with
         | YUnit => {| a_pc := PMarkF2 base a g t; a_entry := e; a_new := [QWriteState MustReplace (Some g) DFree];
@@ -335,10 +221,10 @@ Section Lifecycle.
         | _ => do_resolve e r_node_fail PEnd [] [] [] na
         end
     | PPay k a g => if negb (Nat.eqb k cid) then None else Some
-        match y with
-        | YPay (PayComplete pr) => succeed e a pr [] na
-        | YPay PayFailed => pay_failed e a g [] na
-        | _ => start_wait (AfterPay a g) e na
+        match pay_reply y with
+        | PayOk pr => succeed e a pr [] na
+        | PayErr => pay_failed e a g [] na
+        | PayWait => start_wait (AfterPay a g) e na
         end
     | PMS1 k a pr => if negb (Nat.eqb k cid) then None else Some
         match y with
@@ -369,25 +255,15 @@ Inductive event :=
 | EvHeight (h : N)
 | EvCrash.
 
-Fixpoint upd {A} (n : nat) (x : A) (l : list A) : list A :=
-  match n, l with O, _ :: r => x :: r | S n', y :: r => y :: upd n' x r | _, [] => [] end.
 
 Definition plugin0 := {| entry_ := None; lcs := []; next_att := 0 |}.
 Definition sys0 := {| nd := node0; pl := plugin0; calls := []; now := 0; height := 0 |}.
 
-Definition mk_calls (qs : list rpc) : list call := map (fun q => {| c_rpc := q; c_st := Unprocessed |}) qs.
 
 Fixpoint number_calls (b : nat) (qs : list rpc) : list output :=
   match qs with [] => [] | q :: r => OCall b q :: number_calls (S b) r end.
 
-Definition set_status (cid : nat) (st : cstatus) (cs : list call) : list call :=
-  match nth_error cs cid with
-  | Some cl => upd cid {| c_rpc := c_rpc cl; c_st := st |} cs
-  | None => cs
-  end.
 
-Definition cancel_calls (ids : list nat) (cs : list call) : list call :=
-  fold_left (fun acc i => set_status i Cancelled acc) ids cs.
 
 (* install the result of advancing lifecycle [i] *)
 Definition apply_adv (s : sys) (i : nat) (a : adv) : sys * list output :=
